@@ -388,10 +388,12 @@ func (d *rdb) recoverDB() string {
 	return res
 }
 
-func runInitStorage() string {
-	ctx, cancel := context.WithTimeout(context.Background(), 10*time.Second)
+func runInitStorage() string { return runChild(10*time.Second, "initstorage") }
+
+func runChild(limit time.Duration, args ...string) string {
+	ctx, cancel := context.WithTimeout(context.Background(), limit)
 	defer cancel()
-	cmd := exec.CommandContext(ctx, os.Args[0], "initstorage")
+	cmd := exec.CommandContext(ctx, os.Args[0], args...)
 	var stderr bytes.Buffer
 	cmd.Stderr = &stderr
 	err := cmd.Run()
@@ -1087,6 +1089,13 @@ func runFlushCrashes(cfg *config, id int, r *hx.Rng) {
 			d.stmt("UPDATE " + t.name + " SET " + genSet(r, t) + " WHERE " + genWhere(r, t))
 		case x < 9 && len(tables) < 3:
 			mk()
+		}
+		if r.Chance(1, 6) && d.rs != nil {
+			// a crash, and a second crash inside the flush that ends the recovery
+			if d.recoverWithImages() != "ok" {
+				break
+			}
+			d.selectEvery()
 		}
 		if r.Chance(1, 2) {
 			d.selectEvery()
